@@ -18,7 +18,8 @@ RULE = ('search: dependency graphs over n <= 4 formula columns x 2 rows, column 
         'engine order and a random permutation of the work items, with a time limit; expected values from graph '
         'reachability (independent of the model). Second stream: random grammar programs with cross-row references '
         '($R.X), conditionals and errors against a recursive reference evaluator. A case is non-trivial when the graph has '
-        'a cycle. tie: recorded update loops of such documents replayed by the model (as C06). Robustness stream: formulas '
+        'a cycle. Edge stream: a trigger-formula data column on / hanging off a cycle, cycle broken, dependency edited. '
+        'tie: recorded update loops of such documents replayed by the model (as C06). Robustness stream: formulas '
         'that are the key of their own lookup (known finding).')
 TRUSTED = K2.TRUSTED
 ASSUMPTIONS = ['cycle_cells_error / acyclic_cells_normal: formulas do not handle exceptions (strict_prog), consistent '
@@ -412,6 +413,76 @@ def search_sequences(ctx):
       report_sequence(ctx, w, bad)
 
 
+# ---- a trigger-formula DATA column on / hanging off a cycle (edge of the property: get_cell_value(restore=True)) ----
+
+TRIGGER_VARIANTS = {
+  # P: data column with trigger formula $Q + 1, recalculated when Q changes
+  'in_cycle': {'cols': [('Q', '$P + $D'), ('S', '$P * 2')], 'break': ('Q', '$D'), 'q': lambda d: d},
+  'off_cycle': {'cols': [('Q', '$X + $D'), ('X', '$Q'), ('S', '$P * 2')], 'break': ('X', '$D'), 'q': lambda d: 2 * d},
+  'two_step': {'cols': [('Q', '$X + $D'), ('X', '$P'), ('S', '$P * 2')], 'break': ('X', '7'), 'q': lambda d: 7 + d},
+}
+
+
+def run_trigger(w):
+  """Cycle through (or feeding) a trigger column; cycle broken; D edited in EVERY row, so every trigger cell is
+  re-run: afterwards no cell lies on or depends on a cycle: Q per its formula, P = Q + 1, S = 2 * P, and the formula
+  columns equal those of a reloaded engine.  None or (kind, description)."""
+  var = TRIGGER_VARIANTS[w['variant']]
+  def go():
+    e, _ = G.new_doc()
+    if w.get('pseed') is not None:
+      ST.inject_order(e, K2.node_priority(w['pseed']))
+    cols = [{'id': 'D', 'type': 'Int', 'isFormula': False}, {'id': 'P', 'type': 'Int', 'isFormula': False, 'formula': '$Q + 1'}]
+    cols += [{'id': c, 'type': 'Int', 'isFormula': True, 'formula': f} for c, f in var['cols']]
+    G.apply(e, [['AddTable', 'T', cols]])
+    meta = G.actions.get_action_repr(e.fetch_table('_grist_Tables_column'))
+    refs = dict(zip(meta[3]['colId'], meta[2]))
+    G.apply(e, [['UpdateRecord', '_grist_Tables_column', refs['P'], {'recalcWhen': 0, 'recalcDeps': ['L', refs['Q']]}]])
+    n = len(w['d'])
+    G.apply(e, [['BulkAddRecord', 'T', [None] * n, {'D': list(w['d'])}]])
+    G.apply(e, [['ModifyColumn', 'T', var['break'][0], {'formula': var['break'][1]}]])
+    for d2 in w['edits']:
+      G.apply(e, [['BulkUpdateRecord', 'T', list(range(1, n + 1)), {'D': list(d2)}]])
+    got = G.snapshot(e, tables=['T'])['T']['cols']
+    f = G.clone_by_reload(e)
+    G.apply(f, [['Calculate']])
+    return got, G.snapshot(f, tables=['T'])['T']['cols']
+  try:
+    got, fresh = ST.limited2(go)
+  except Timeout:
+    return 'internal', 'recalculation did not terminate within the time limit'
+  except Exception as x:
+    return 'internal', 'recalculation raised %r' % (x,)
+  d = w['edits'][-1]
+  q = [var['q'](x) for x in d]
+  exp = {'Q': q, 'P': [x + 1 for x in q], 'S': [2 * (x + 1) for x in q]}
+  for c in ('Q', 'P', 'S'):
+    for i, (a, b) in enumerate(zip(exp[c], got[c])):
+      if a != b:
+        kind = 'stale_cycle_error' if b == CRE else 'wrong_value'
+        return kind, ('trigger column P = $Q + 1 (recalc when Q changes), %s; cycle broken by %s := %s; D edited in '
+                      'every row: %s[row %d] holds %r, expected %r' % (var['cols'], var['break'][0], var['break'][1],
+                                                                      c, i + 1, b, a))
+  for c, _f in var['cols']:
+    if got[c] != fresh[c]:
+      return 'differs_from_fresh_engine', 'formula column %s: engine %r, reloaded engine %r' % (c, got[c], fresh[c])
+  return None
+
+
+def search_triggers(ctx):
+  for variant in sorted(TRIGGER_VARIANTS):
+    for _ in range(ctx.n(2, 25)):
+      n = ctx.rng.choice([1, 2, 3])
+      w = {'stream': 'trigger', 'variant': variant, 'd': [ctx.rng.choice([1, 5, 10]) for _i in range(n)],
+           'edits': [[ctx.rng.choice([2, 11, 21, 30]) + k for _i in range(n)] for k in range(ctx.rng.choice([1, 2]))],
+           'pseed': ctx.rng.choice([None, ctx.rng.randrange(1 << 30)])}
+      ctx.count(('trigger', repr(w)), nontrivial=True, kind='seq:trigger column:' + variant)
+      bad = run_trigger(w)
+      if bad:
+        ctx.violation(bad[0], bad[1], w)
+        break
+
+
 # ---- random grammar programs against a recursive reference evaluator ------------------------------------------
 
 class _Cycle(Exception):
@@ -591,6 +662,7 @@ def search(ctx):
   search_graphs(ctx)
   ctx.log('search: graphs done')
   search_sequences(ctx)
+  search_triggers(ctx)
   ctx.log('search: edit sequences done')
   search_progs(ctx)
   ctx.log('search: programs done')
@@ -606,6 +678,8 @@ def replay(ctx, w):
     bad = judge(lambda: _fresh_steps(g0, g1, w['d'], w.get('pseed'))[1], g1, w['d'])
   elif s == 'seq':
     bad = run_sequence(w)
+  elif s == 'trigger':
+    bad = run_trigger(w)
   elif s == 'prog':
     bad = run_prog(w)
   elif s == 'lookup':
